@@ -120,6 +120,15 @@ theorem C14_docker (scan proto host : List Char) (info version : GoVal) (h1 : wf
 def C14_full : Prop :=
   ∀ a b : ArpResult, render (.arp a) = render (.arp b) → a.ip = b.ip ∧ a.mac = b.mac ∧ a.vendor = b.vendor
 
+/-- **`C14_full` does not hold**: the byte strings `ff` and `fe` in the address field render to the same line
+    (each invalid byte becomes U+FFFD), so the line does not determine arbitrary bytes — which is why the
+    statement for arbitrary bytes is `C14_any_bytes_partial` (the sanitised value is read back). -/
+theorem C14_full_fails : ¬ C14_full := by
+  intro h
+  have := (h ⟨[.bad 0xff], [], []⟩ ⟨[.bad 0xfe], [], []⟩ (by decide)).1
+  revert this
+  decide
+
 /-- **any bytes** (`_partial`: for strings that are not valid UTF-8 the value read back is the sanitised
     string — each invalid byte as U+FFFD — not the original bytes): every result of every type, with
     arbitrary byte strings in every string field, is still one complete object with the documented keys -/
